@@ -109,6 +109,10 @@ pub broadcast proof fn axiom_ord_le_uint<const BITS: usize, const LIMBS: usize>(
 pub assume_specification<T: Ord> [core::cmp::min::<T>] (a: T, b: T) -> (r: T)
     ensures r == (if ord_le(a, b) { a } else { b });
 
+/// ruint: `#[derive(Default)]` on `struct Uint { limbs: [u64; LIMBS] }` -- the zero value
+pub assume_specification<const BITS: usize, const LIMBS: usize> [<Uint<BITS, LIMBS> as core::default::Default>::default] () -> (r: Uint<BITS, LIMBS>)
+    ensures uval(r) == 0;
+
 /// `Uint::from(Uint)` is the identity (ruint from.rs: UintTryFrom<Uint<B,L>> for Uint<B,L>)
 #[verifier::external_body]
 pub broadcast proof fn axiom_ru_from_val_uint<const BITS: usize, const LIMBS: usize>(v: Uint<BITS, LIMBS>)
@@ -143,6 +147,13 @@ pub uninterp spec fn fb_index<IdxT, const N: usize>(b: FixedBytes<N>, i: IdxT) -
 pub assume_specification<IdxT, const N: usize> [<FixedBytes<N> as core::ops::Index<IdxT>>::index] (b: &FixedBytes<N>, i: IdxT) -> (r: &<FixedBytes<N> as core::ops::Index<IdxT>>::Output)
     where [u8; N]: core::ops::Index<IdxT>
     ensures r == fb_index(*b, i);
+/// vstd gives `container[i]` on a foreign type an uninterpreted precondition: alloy's FixedBytes indexes its
+/// inner `[u8; N]` (panics when out of range)
+#[verifier::external_body]
+pub broadcast proof fn axiom_fixed_bytes_index_req<const N: usize>(b: FixedBytes<N>, i: usize)
+    ensures #[trigger] vstd::std_specs::core::IndexSpec::index_req(&b, &i) == (i < N),
+{
+}
 pub open spec fn fb_byte<const N: usize>(b: FixedBytes<N>, i: int) -> u8 { *fb_index::<usize, N>(b, i as usize) }
 
 /// `TxKind::is_create` (alloy common.rs: `matches!(self, Self::Create)`)
@@ -158,5 +169,5 @@ pub assume_specification [Bytecode::is_eip7702] (b: &Bytecode) -> (r: bool)
     ensures r == bc_is_eip7702(*b);
 
 pub broadcast group group_env {
-    axiom_ord_le_uint, axiom_ru_from_val_uint, axiom_ru_from_val_u128, axiom_bytes_deref_len,
+    axiom_ord_le_uint, axiom_ru_from_val_uint, axiom_ru_from_val_u128, axiom_bytes_deref_len, axiom_fixed_bytes_index_req,
 }
